@@ -1,0 +1,489 @@
+/*
+ * Verification facade: neutral textual representation of MQTT packets.
+ *
+ * One packet per line: `<kind> key=value key=value ...`.  Integers are decimal, strings and binary
+ * data are `x<hex>` (the empty string is `x`), an absent optional field is an absent key, list
+ * fields are repeated keys in order.  Only compiled with the `verif` feature.
+ */
+
+use crate::mqtt::*;
+
+pub(crate) type Kv<'a> = Vec<(&'a str, &'a str)>;
+
+pub(crate) fn hex(bytes: &[u8]) -> String {
+    let mut s = String::with_capacity(bytes.len() * 2 + 1);
+    s.push('x');
+    for b in bytes {
+        s.push_str(&format!("{:02x}", b));
+    }
+    s
+}
+
+pub(crate) fn unhex(s: &str) -> Result<Vec<u8>, String> {
+    let body = s.strip_prefix('x').ok_or_else(|| format!("bad hex {}", s))?;
+    if body.len() % 2 != 0 {
+        return Err(format!("odd hex {}", s));
+    }
+    let mut out = Vec::with_capacity(body.len() / 2);
+    let bytes = body.as_bytes();
+    let mut i = 0;
+    while i < bytes.len() {
+        let h = (bytes[i] as char).to_digit(16).ok_or("bad hex digit")?;
+        let l = (bytes[i + 1] as char).to_digit(16).ok_or("bad hex digit")?;
+        out.push((h * 16 + l) as u8);
+        i += 2;
+    }
+    Ok(out)
+}
+
+pub(crate) fn unhex_string(s: &str) -> Result<String, String> {
+    String::from_utf8(unhex(s)?).map_err(|_| "invalid utf8".to_string())
+}
+
+pub(crate) fn split_kv(line: &str) -> (&str, Kv) {
+    let mut parts = line.split(' ').filter(|p| !p.is_empty());
+    let kind = parts.next().unwrap_or("");
+    let mut kv = Vec::new();
+    for p in parts {
+        if let Some(pos) = p.find('=') {
+            kv.push((&p[..pos], &p[pos + 1..]));
+        } else {
+            kv.push((p, ""));
+        }
+    }
+    (kind, kv)
+}
+
+pub(crate) fn get<'a>(kv: &Kv<'a>, key: &str) -> Option<&'a str> {
+    kv.iter().find(|(k, _)| *k == key).map(|(_, v)| *v)
+}
+
+pub(crate) fn get_all<'a>(kv: &Kv<'a>, key: &str) -> Vec<&'a str> {
+    kv.iter().filter(|(k, _)| *k == key).map(|(_, v)| *v).collect()
+}
+
+pub(crate) fn get_num<T: std::str::FromStr>(kv: &Kv, key: &str) -> Result<Option<T>, String> {
+    match get(kv, key) {
+        None => Ok(None),
+        Some(v) => v.parse::<T>().map(Some).map_err(|_| format!("bad number for {}: {}", key, v)),
+    }
+}
+
+pub(crate) fn req_num<T: std::str::FromStr + Default>(kv: &Kv, key: &str) -> Result<T, String> {
+    Ok(get_num::<T>(kv, key)?.unwrap_or_default())
+}
+
+pub(crate) fn get_bool(kv: &Kv, key: &str) -> Result<Option<bool>, String> {
+    Ok(get_num::<u8>(kv, key)?.map(|v| v != 0))
+}
+
+pub(crate) fn get_str(kv: &Kv, key: &str) -> Result<Option<String>, String> {
+    match get(kv, key) {
+        None => Ok(None),
+        Some(v) => Ok(Some(unhex_string(v)?)),
+    }
+}
+
+pub(crate) fn get_bin(kv: &Kv, key: &str) -> Result<Option<Vec<u8>>, String> {
+    match get(kv, key) {
+        None => Ok(None),
+        Some(v) => Ok(Some(unhex(v)?)),
+    }
+}
+
+fn get_ups(kv: &Kv, key: &str, empty_key: &str) -> Result<Option<Vec<UserProperty>>, String> {
+    let all = get_all(kv, key);
+    if all.is_empty() {
+        if get(kv, empty_key).is_some() {
+            return Ok(Some(Vec::new()));
+        }
+        return Ok(None);
+    }
+    let mut out = Vec::new();
+    for item in all {
+        let pos = item.find(':').ok_or("bad user property")?;
+        out.push(UserProperty { name: unhex_string(&item[..pos])?, value: unhex_string(&item[pos + 1..])? });
+    }
+    Ok(Some(out))
+}
+
+fn put_ups(out: &mut String, props: &Option<Vec<UserProperty>>, key: &str, empty_key: &str) {
+    if let Some(ps) = props {
+        if ps.is_empty() {
+            out.push_str(&format!(" {}=1", empty_key));
+        }
+        for p in ps {
+            out.push_str(&format!(" {}={}:{}", key, hex(p.name.as_bytes()), hex(p.value.as_bytes())));
+        }
+    }
+}
+
+fn put_str(out: &mut String, key: &str, v: &Option<String>) {
+    if let Some(s) = v {
+        out.push_str(&format!(" {}={}", key, hex(s.as_bytes())));
+    }
+}
+
+fn put_bin(out: &mut String, key: &str, v: &Option<Vec<u8>>) {
+    if let Some(s) = v {
+        out.push_str(&format!(" {}={}", key, hex(s)));
+    }
+}
+
+fn put_num<T: std::fmt::Display>(out: &mut String, key: &str, v: &Option<T>) {
+    if let Some(s) = v {
+        out.push_str(&format!(" {}={}", key, s));
+    }
+}
+
+fn put_bool(out: &mut String, key: &str, v: &Option<bool>) {
+    if let Some(s) = v {
+        out.push_str(&format!(" {}={}", key, if *s { 1 } else { 0 }));
+    }
+}
+
+fn qos_of(v: u8) -> Result<QualityOfService, String> {
+    QualityOfService::try_from(v).map_err(|_| "bad qos".to_string())
+}
+
+fn parse_publish_fields(kv: &Kv, prefix: &str) -> Result<PublishPacket, String> {
+    let k = |s: &str| format!("{}{}", prefix, s);
+    let mut p = PublishPacket {
+        packet_id: req_num::<u16>(kv, &k("pid"))?,
+        topic: get_str(kv, &k("topic"))?.unwrap_or_default(),
+        qos: qos_of(req_num::<u8>(kv, &k("qos"))?)?,
+        duplicate: get_bool(kv, &k("dup"))?.unwrap_or(false),
+        retain: get_bool(kv, &k("retain"))?.unwrap_or(false),
+        payload: get_bin(kv, &k("payload"))?,
+        message_expiry_interval_seconds: get_num::<u32>(kv, &k("mei"))?,
+        topic_alias: get_num::<u16>(kv, &k("ta"))?,
+        response_topic: get_str(kv, &k("rt"))?,
+        correlation_data: get_bin(kv, &k("cd"))?,
+        content_type: get_str(kv, &k("ct"))?,
+        user_properties: get_ups(kv, &k("up"), &k("upe"))?,
+        ..Default::default()
+    };
+    if let Some(v) = get_num::<u8>(kv, &k("pfi"))? {
+        p.payload_format = Some(PayloadFormatIndicator::try_from(v).map_err(|_| "bad pfi".to_string())?);
+    }
+    if let Some(v) = get(kv, &k("sids")) {
+        let mut ids = Vec::new();
+        for item in v.split(',').filter(|s| !s.is_empty()) {
+            ids.push(item.parse::<u32>().map_err(|_| "bad sid".to_string())?);
+        }
+        p.subscription_identifiers = Some(ids);
+    }
+    Ok(p)
+}
+
+fn print_publish_fields(out: &mut String, p: &PublishPacket, prefix: &str) {
+    let k = |s: &str| format!("{}{}", prefix, s);
+    out.push_str(&format!(" {}={} {}={} {}={} {}={} {}={}", k("pid"), p.packet_id, k("topic"), hex(p.topic.as_bytes()),
+        k("qos"), p.qos as u8, k("dup"), if p.duplicate { 1 } else { 0 }, k("retain"), if p.retain { 1 } else { 0 }));
+    put_bin(out, &k("payload"), &p.payload);
+    put_num(out, &k("pfi"), &p.payload_format.map(|v| v as u8));
+    put_num(out, &k("mei"), &p.message_expiry_interval_seconds);
+    put_num(out, &k("ta"), &p.topic_alias);
+    put_str(out, &k("rt"), &p.response_topic);
+    put_bin(out, &k("cd"), &p.correlation_data);
+    if let Some(ids) = &p.subscription_identifiers {
+        let items: Vec<String> = ids.iter().map(|v| v.to_string()).collect();
+        out.push_str(&format!(" {}={}", k("sids"), items.join(",")));
+    }
+    put_str(out, &k("ct"), &p.content_type);
+    put_ups(out, &p.user_properties, &k("up"), &k("upe"));
+}
+
+macro_rules! parse_ack {
+    ($kv: ident, $variant: ident, $packet: ident, $rc: ident) => {{
+        let rc = $rc::try_from(req_num::<u8>(&$kv, "rc")?).map_err(|_| "bad reason code".to_string())?;
+        MqttPacket::$variant($packet {
+            packet_id: req_num::<u16>(&$kv, "pid")?,
+            reason_code: rc,
+            reason_string: get_str(&$kv, "rs")?,
+            user_properties: get_ups(&$kv, "up", "upe")?,
+        })
+    }};
+}
+
+macro_rules! print_ack {
+    ($out: ident, $name: expr, $p: ident) => {{
+        $out.push_str(&format!("{} pid={} rc={}", $name, $p.packet_id, $p.reason_code as u8));
+        put_str(&mut $out, "rs", &$p.reason_string);
+        put_ups(&mut $out, &$p.user_properties, "up", "upe");
+    }};
+}
+
+pub(crate) fn parse_packet(line: &str) -> Result<MqttPacket, String> {
+    let (kind, kv) = split_kv(line);
+    let packet = match kind {
+        "connect" => {
+            let mut c = ConnectPacket {
+                keep_alive_interval_seconds: req_num::<u16>(&kv, "ka")?,
+                clean_start: get_bool(&kv, "clean")?.unwrap_or(false),
+                client_id: get_str(&kv, "cid")?,
+                username: get_str(&kv, "user")?,
+                password: get_bin(&kv, "pass")?,
+                session_expiry_interval_seconds: get_num::<u32>(&kv, "sei")?,
+                request_response_information: get_bool(&kv, "rri")?,
+                request_problem_information: get_bool(&kv, "rpi")?,
+                receive_maximum: get_num::<u16>(&kv, "rm")?,
+                topic_alias_maximum: get_num::<u16>(&kv, "tam")?,
+                maximum_packet_size_bytes: get_num::<u32>(&kv, "mps")?,
+                authentication_method: get_str(&kv, "am")?,
+                authentication_data: get_bin(&kv, "ad")?,
+                will_delay_interval_seconds: get_num::<u32>(&kv, "wdi")?,
+                will: None,
+                user_properties: get_ups(&kv, "up", "upe")?,
+            };
+            if get(&kv, "w.topic").is_some() {
+                c.will = Some(parse_publish_fields(&kv, "w.")?);
+            }
+            MqttPacket::Connect(c)
+        }
+        "connack" => {
+            let mut c = ConnackPacket {
+                session_present: get_bool(&kv, "sp")?.unwrap_or(false),
+                reason_code: ConnectReasonCode::try_from(req_num::<u8>(&kv, "rc")?).map_err(|_| "bad reason code".to_string())?,
+                session_expiry_interval: get_num::<u32>(&kv, "sei")?,
+                receive_maximum: get_num::<u16>(&kv, "rm")?,
+                retain_available: get_bool(&kv, "ra")?,
+                maximum_packet_size: get_num::<u32>(&kv, "mps")?,
+                assigned_client_identifier: get_str(&kv, "acid")?,
+                topic_alias_maximum: get_num::<u16>(&kv, "tam")?,
+                reason_string: get_str(&kv, "rs")?,
+                user_properties: get_ups(&kv, "up", "upe")?,
+                wildcard_subscriptions_available: get_bool(&kv, "wsa")?,
+                subscription_identifiers_available: get_bool(&kv, "sia")?,
+                shared_subscriptions_available: get_bool(&kv, "ssa")?,
+                server_keep_alive: get_num::<u16>(&kv, "ska")?,
+                response_information: get_str(&kv, "ri")?,
+                server_reference: get_str(&kv, "sr")?,
+                authentication_method: get_str(&kv, "am")?,
+                authentication_data: get_bin(&kv, "ad")?,
+                ..Default::default()
+            };
+            if let Some(v) = get_num::<u8>(&kv, "mq")? {
+                c.maximum_qos = Some(qos_of(v)?);
+            }
+            MqttPacket::Connack(c)
+        }
+        "publish" => MqttPacket::Publish(parse_publish_fields(&kv, "")?),
+        "puback" => parse_ack!(kv, Puback, PubackPacket, PubackReasonCode),
+        "pubrec" => parse_ack!(kv, Pubrec, PubrecPacket, PubrecReasonCode),
+        "pubrel" => parse_ack!(kv, Pubrel, PubrelPacket, PubrelReasonCode),
+        "pubcomp" => parse_ack!(kv, Pubcomp, PubcompPacket, PubcompReasonCode),
+        "subscribe" => {
+            let mut s = SubscribePacket {
+                packet_id: req_num::<u16>(&kv, "pid")?,
+                subscriptions: Vec::new(),
+                subscription_identifier: get_num::<u32>(&kv, "subid")?,
+                user_properties: get_ups(&kv, "up", "upe")?,
+            };
+            for item in get_all(&kv, "sub") {
+                let parts: Vec<&str> = item.split(':').collect();
+                if parts.len() != 5 {
+                    return Err("bad subscription".to_string());
+                }
+                let num = |s: &str| s.parse::<u8>().map_err(|_| "bad subscription number".to_string());
+                s.subscriptions.push(Subscription {
+                    topic_filter: unhex_string(parts[0])?,
+                    qos: qos_of(num(parts[1])?)?,
+                    no_local: num(parts[2])? != 0,
+                    retain_as_published: num(parts[3])? != 0,
+                    retain_handling_type: match num(parts[4])? {
+                        0 => RetainHandlingType::SendOnSubscribe,
+                        1 => RetainHandlingType::SendOnSubscribeIfNew,
+                        2 => RetainHandlingType::DontSend,
+                        _ => { return Err("bad rh".to_string()); }
+                    },
+                });
+            }
+            MqttPacket::Subscribe(s)
+        }
+        "suback" => {
+            let mut s = SubackPacket {
+                packet_id: req_num::<u16>(&kv, "pid")?,
+                reason_string: get_str(&kv, "rs")?,
+                user_properties: get_ups(&kv, "up", "upe")?,
+                reason_codes: Vec::new(),
+            };
+            for item in get_all(&kv, "rc") {
+                let v = item.parse::<u8>().map_err(|_| "bad rc".to_string())?;
+                s.reason_codes.push(SubackReasonCode::try_from(v).map_err(|_| "bad reason code".to_string())?);
+            }
+            MqttPacket::Suback(s)
+        }
+        "unsubscribe" => {
+            let mut u = UnsubscribePacket {
+                packet_id: req_num::<u16>(&kv, "pid")?,
+                topic_filters: Vec::new(),
+                user_properties: get_ups(&kv, "up", "upe")?,
+            };
+            for item in get_all(&kv, "tf") {
+                u.topic_filters.push(unhex_string(item)?);
+            }
+            MqttPacket::Unsubscribe(u)
+        }
+        "unsuback" => {
+            let mut s = UnsubackPacket {
+                packet_id: req_num::<u16>(&kv, "pid")?,
+                reason_string: get_str(&kv, "rs")?,
+                user_properties: get_ups(&kv, "up", "upe")?,
+                reason_codes: Vec::new(),
+            };
+            for item in get_all(&kv, "rc") {
+                let v = item.parse::<u8>().map_err(|_| "bad rc".to_string())?;
+                s.reason_codes.push(UnsubackReasonCode::try_from(v).map_err(|_| "bad reason code".to_string())?);
+            }
+            MqttPacket::Unsuback(s)
+        }
+        "pingreq" => MqttPacket::Pingreq(PingreqPacket {}),
+        "pingresp" => MqttPacket::Pingresp(PingrespPacket {}),
+        "disconnect" => MqttPacket::Disconnect(DisconnectPacket {
+            reason_code: DisconnectReasonCode::try_from(req_num::<u8>(&kv, "rc")?).map_err(|_| "bad reason code".to_string())?,
+            session_expiry_interval_seconds: get_num::<u32>(&kv, "sei")?,
+            reason_string: get_str(&kv, "rs")?,
+            user_properties: get_ups(&kv, "up", "upe")?,
+            server_reference: get_str(&kv, "sr")?,
+        }),
+        "auth" => MqttPacket::Auth(AuthPacket {
+            reason_code: AuthenticateReasonCode::try_from(req_num::<u8>(&kv, "rc")?).map_err(|_| "bad reason code".to_string())?,
+            authentication_method: get_str(&kv, "am")?,
+            authentication_data: get_bin(&kv, "ad")?,
+            reason_string: get_str(&kv, "rs")?,
+            user_properties: get_ups(&kv, "up", "upe")?,
+        }),
+        _ => {
+            return Err(format!("unknown packet kind {}", kind));
+        }
+    };
+    Ok(packet)
+}
+
+pub(crate) fn print_packet(packet: &MqttPacket) -> String {
+    let mut out = String::new();
+    match packet {
+        MqttPacket::Connect(c) => {
+            out.push_str(&format!("connect ka={} clean={}", c.keep_alive_interval_seconds, if c.clean_start { 1 } else { 0 }));
+            put_str(&mut out, "cid", &c.client_id);
+            put_str(&mut out, "user", &c.username);
+            put_bin(&mut out, "pass", &c.password);
+            put_num(&mut out, "sei", &c.session_expiry_interval_seconds);
+            put_bool(&mut out, "rri", &c.request_response_information);
+            put_bool(&mut out, "rpi", &c.request_problem_information);
+            put_num(&mut out, "rm", &c.receive_maximum);
+            put_num(&mut out, "tam", &c.topic_alias_maximum);
+            put_num(&mut out, "mps", &c.maximum_packet_size_bytes);
+            put_str(&mut out, "am", &c.authentication_method);
+            put_bin(&mut out, "ad", &c.authentication_data);
+            put_num(&mut out, "wdi", &c.will_delay_interval_seconds);
+            if let Some(w) = &c.will {
+                print_publish_fields(&mut out, w, "w.");
+            }
+            put_ups(&mut out, &c.user_properties, "up", "upe");
+        }
+        MqttPacket::Connack(c) => {
+            out.push_str(&format!("connack sp={} rc={}", if c.session_present { 1 } else { 0 }, c.reason_code as u8));
+            put_num(&mut out, "sei", &c.session_expiry_interval);
+            put_num(&mut out, "rm", &c.receive_maximum);
+            put_num(&mut out, "mq", &c.maximum_qos.map(|v| v as u8));
+            put_bool(&mut out, "ra", &c.retain_available);
+            put_num(&mut out, "mps", &c.maximum_packet_size);
+            put_str(&mut out, "acid", &c.assigned_client_identifier);
+            put_num(&mut out, "tam", &c.topic_alias_maximum);
+            put_str(&mut out, "rs", &c.reason_string);
+            put_ups(&mut out, &c.user_properties, "up", "upe");
+            put_bool(&mut out, "wsa", &c.wildcard_subscriptions_available);
+            put_bool(&mut out, "sia", &c.subscription_identifiers_available);
+            put_bool(&mut out, "ssa", &c.shared_subscriptions_available);
+            put_num(&mut out, "ska", &c.server_keep_alive);
+            put_str(&mut out, "ri", &c.response_information);
+            put_str(&mut out, "sr", &c.server_reference);
+            put_str(&mut out, "am", &c.authentication_method);
+            put_bin(&mut out, "ad", &c.authentication_data);
+        }
+        MqttPacket::Publish(p) => {
+            out.push_str("publish");
+            print_publish_fields(&mut out, p, "");
+        }
+        MqttPacket::Puback(p) => print_ack!(out, "puback", p),
+        MqttPacket::Pubrec(p) => print_ack!(out, "pubrec", p),
+        MqttPacket::Pubrel(p) => print_ack!(out, "pubrel", p),
+        MqttPacket::Pubcomp(p) => print_ack!(out, "pubcomp", p),
+        MqttPacket::Subscribe(s) => {
+            out.push_str(&format!("subscribe pid={}", s.packet_id));
+            for sub in &s.subscriptions {
+                out.push_str(&format!(" sub={}:{}:{}:{}:{}", hex(sub.topic_filter.as_bytes()), sub.qos as u8,
+                    if sub.no_local { 1 } else { 0 }, if sub.retain_as_published { 1 } else { 0 }, sub.retain_handling_type as u8));
+            }
+            put_num(&mut out, "subid", &s.subscription_identifier);
+            put_ups(&mut out, &s.user_properties, "up", "upe");
+        }
+        MqttPacket::Suback(s) => {
+            out.push_str(&format!("suback pid={}", s.packet_id));
+            put_str(&mut out, "rs", &s.reason_string);
+            put_ups(&mut out, &s.user_properties, "up", "upe");
+            for rc in &s.reason_codes {
+                out.push_str(&format!(" rc={}", *rc as u8));
+            }
+        }
+        MqttPacket::Unsubscribe(u) => {
+            out.push_str(&format!("unsubscribe pid={}", u.packet_id));
+            for tf in &u.topic_filters {
+                out.push_str(&format!(" tf={}", hex(tf.as_bytes())));
+            }
+            put_ups(&mut out, &u.user_properties, "up", "upe");
+        }
+        MqttPacket::Unsuback(s) => {
+            out.push_str(&format!("unsuback pid={}", s.packet_id));
+            put_str(&mut out, "rs", &s.reason_string);
+            put_ups(&mut out, &s.user_properties, "up", "upe");
+            for rc in &s.reason_codes {
+                out.push_str(&format!(" rc={}", *rc as u8));
+            }
+        }
+        MqttPacket::Pingreq(_) => out.push_str("pingreq"),
+        MqttPacket::Pingresp(_) => out.push_str("pingresp"),
+        MqttPacket::Disconnect(d) => {
+            out.push_str(&format!("disconnect rc={}", d.reason_code as u8));
+            put_num(&mut out, "sei", &d.session_expiry_interval_seconds);
+            put_str(&mut out, "rs", &d.reason_string);
+            put_ups(&mut out, &d.user_properties, "up", "upe");
+            put_str(&mut out, "sr", &d.server_reference);
+        }
+        MqttPacket::Auth(a) => {
+            out.push_str(&format!("auth rc={}", a.reason_code as u8));
+            put_str(&mut out, "am", &a.authentication_method);
+            put_bin(&mut out, "ad", &a.authentication_data);
+            put_str(&mut out, "rs", &a.reason_string);
+            put_ups(&mut out, &a.user_properties, "up", "upe");
+        }
+    }
+    out
+}
+
+pub(crate) fn error_kind(error: &crate::error::GneissError) -> &'static str {
+    use crate::error::GneissError::*;
+    match error {
+        Unimplemented(_) => "Unimplemented",
+        OperationChannelFailure(_) => "OperationChannelFailure",
+        EncodingFailure(_) => "EncodingFailure",
+        DecodingFailure(_) => "DecodingFailure",
+        ProtocolError(_) => "ProtocolError",
+        InvalidInboundTopicAlias(_) => "InvalidInboundTopicAlias",
+        InternalStateError(_) => "InternalStateError",
+        ConnectionClosed(_) => "ConnectionClosed",
+        OfflineQueuePolicyFailed(_) => "OfflineQueuePolicyFailed",
+        AckTimeout(_) => "AckTimeout",
+        ClientClosed(_) => "ClientClosed",
+        UserInitiatedDisconnect(_) => "UserInitiatedDisconnect",
+        ConnectionEstablishmentFailure(_) => "ConnectionEstablishmentFailure",
+        StdIoError(_) => "StdIoError",
+        TlsError(_) => "TlsError",
+        TransportError(_) => "TransportError",
+        PacketValidationFailure(_) => "PacketValidationFailure",
+        OtherError(_) => "OtherError",
+        MaxInterruptedRetriesExceeded(_) => "MaxInterruptedRetriesExceeded",
+    }
+}
